@@ -38,7 +38,11 @@ def _block(trans, types, abbrs, tl, isstd=None, isut=None, leaps=(), nodedup=Fal
         body += struct.pack(">q" if tl == 8 else ">i", lt) + struct.pack(">i", corr)
     nstd = len(types) if isstd else 0
     nut = len(types) if isut else 0
-    body += b"\0" * nstd + b"\0" * nut
+    # standard/wall and UT/local indicators (RFC 8536: a UT indicator of 1 needs a standard indicator of 1): values that differ
+    # between otherwise equal types - they say nothing about what lookup() reports
+    std_b = bytes(1 if k % 4 in (1, 2) else 0 for k in range(nstd))
+    ut_b = bytes(1 if (k % 4 == 1 and nstd) else 0 for k in range(nut))
+    body += std_b + ut_b
     counts = struct.pack(">6i", nut, nstd, len(leaps), len(trans), len(types), len(chars))
     return counts, body
 
